@@ -16,11 +16,12 @@ ExtrasOf(lk) == IF lk = "ode" THEN SUBSET {"ic", "obs"}
                 ELSE IF lk = "statio" THEN SUBSET {"norm", "bnd", "obs"}
                 ELSE SUBSET {"ic", "norm", "bnd", "obs"}
 C03 == UNION {[kind : {"loss_struct"}, family : {"C03"}, lkind : {lk}, nres : 1..3, wform : {"scalar", "vector"}, b : Bs,
-               extras : ExtrasOf(lk), twin : {"base", "perm", "halfA", "halfB", "rew"}, call : {"evaluate", "call"}, dyn : BOOLEAN,
+               extras : ExtrasOf(lk), twin : {"base", "perm", "halfA", "halfB", "rew"}, call : {"evaluate", "call", "reweighted"}, dyn : BOOLEAN,
                rshape : {"array", "scalar"}]
               : lk \in LKinds}
 C03ok(c) == /\ (c.twin \in {"halfA", "halfB"} => c.b >= 2)
-            /\ (c.call = "call" => c.twin = "base")
+            /\ (c.call # "evaluate" => c.twin = "base")      \* "reweighted": the loss is built with a zero dynamic weight, the weights are then
+                                                             \* replaced on the object (eqx.tree_at, as documented) before the evaluation
             /\ (~c.dyn => c.twin = "base" /\ c.nres = 1 /\ c.wform = "scalar" /\ c.b = 2)
             /\ (c.twin # "base" => c.extras = {})           \* twins concern the dynamic term only
             /\ (c.rshape = "scalar" => c.nres = 1 /\ c.dyn /\ c.wform = "scalar" /\ c.extras = {})   \* a one-component residual returned as a 0-d scalar
